@@ -744,9 +744,15 @@ package larking
 // ---------------------------------------------------------------------------
 // Publication discipline (C11, C12, C16): the routing state is replaced by one
 // atomic store, on success only; a request loads it once.
-//@ func (*state).removeHandler trusted
+// (frame assumed at call sites; the body is checked for: a method whose last
+// handler goes away is removed from the handler table before its rule is
+// deleted, and the connection is forgotten)
+//@ func (*state).removeHandler serves C11 trusted partial ghost post
 //@   returns (ok)
+//@   requires s != nil
 //@   modifies F$state., M$
+//@   assert at "s.path.delRule(name)" [method-without-handlers-is-unregistered C11] !maphas(s.handlers, name)
+//@   ensures [dropped-conn-is-forgotten C11] ok ==> !maphas(s.conns, cc)
 //@ func (*Mux).DropConn serves C11 C12 partial ghost count post
 //@   returns (ok)
 //@   requires m != nil
